@@ -43,13 +43,16 @@ CHECKS.update({
         design_ref="0.2, 6/C05"),
     "C06": dict(
         text="Token-level Lean model of rendering (_simplified_form/__str__ of range.py and union.py) and parsing "
-             "(_from_pkg_specifier, from_specifierset, parse_version_specifier). Proved: empty/any round trip, every range "
-             "rendered without the ~= heuristic re-parses to an equal range (range_roundtrip_plain_partial), and the "
-             "property as stated is FALSE of the code for [X.Y,(X+1).0.postN) (postrelease_counterexample, known finding D4a). "
-             "The ~=, !=V, !=X.* and || forms are decided by the differential stream: str() and re-parse of every reachable "
-             "object are compared with the model and checked with the real `==`.",
-        technique="Lean 4 partial proof + counterexample theorem + differential correspondence of str/parse",
-        design_ref="6/C06"),
+             "(_from_pkg_specifier, from_specifierset, the || fold). Proved for EVERY canonical object (C06.roundtrips): what str() "
+             "denotes re-parses to an object == to the original, both ways round - cached clause texts, <=V / >V / ==V, >=A,<B, the "
+             "~= heuristic (compat_render: when ~=A is chosen for [A,B) with B final, B IS the next series of A), !=V, !=X.* "
+             "(wild_render) and the ||-joined form (by uniqueness of canonical forms over cuts). Hypotheses: NoD4a - the property "
+             "as stated is FALSE of the code for [X.Y,(X+1).0.postN), rendered ~=X.Y (postrelease_counterexample; pinned by the "
+             "repository's tests: known finding D4a) - and TextOk (a cached clause parses to its object; true of what the parser and "
+             "operators build). Characters <-> clauses is packaging's and is decided differentially: str() and re-parse of every "
+             "reachable object are compared with the model and checked with the real ==.",
+        technique="Lean 4 proof (token-level round trip for all canonical objects) + counterexample theorem + differential correspondence of str/parse",
+        design_ref="0.2, 6/C06"),
     "C04": dict(
         text="Lean: leaf lemma for the ordered/equality operators (PEP 440 match = interval membership, any candidate), "
              "tree_exact (any &,|,~ expression over canonical leaves never crashes and admits exactly the Boolean "
